@@ -294,7 +294,11 @@ class Signals:
         """
         result = False
         handlers = getattr(obj, self._signal_attr, {}).get(name, [])
-        for _key, callback, user_arg, (weak_args, user_args) in handlers:
+        # Handlers can be disconnected while emitting (by a callback or by a weakref callback):
+        # iterate over a snapshot and skip the handlers disconnected in the meantime.
+        for key, callback, user_arg, (weak_args, user_args) in tuple(handlers):
+            if all(h[0] is not key for h in handlers):
+                continue
             result |= self._call_callback(callback, user_arg, weak_args, user_args, args)
         return result
 
